@@ -5,7 +5,13 @@ the buffer, loop fuel is never the reason of a failure when items consume input,
 accepted values are well-shaped).  The memory safety of the compiled C is a
 runtime fact: it is OBSERVED here with ASan+UBSan+LSan and an allocation ledger
 on mutated inputs, not proved (claim level: partial).
-Tie, four layers:
+Tie, five layers:
+ (member-lookup layer) type shapes that select each branch of the member lookup of the BER decoders of SEQUENCE / SET /
+   CHOICE (run of OPTIONAL members, bsearch in the tag-to-member table, untagged CHOICE members, a tag re-used behind a
+   mandatory member) under STRUCTURAL faults (a member TLV twice, moved, swapped, repeated, inserted) and the analogous
+   element / presence-bit faults of XER, UPER, OER (lib/c04_tagmap.py, `d4m`): besides the common oracle, an RC_OK result
+   must hold every TLV that was accepted; coq/Rt/SafetyTagMap.v run on the tables read from the emitted descriptors
+   (`tm4`) must give the C's verdict and set of members.
  (leaf layer) the four functions that skip what an extensible type does not know (ber_skip_length,
    uper_open_type_skip, oer_open_type_skip, xer_skip_unknown) through harness/leafdrv_c04.inc against
    coq/Rt/SafetySkip.v: well-formed nested TLVs / open types cut at every offset and damaged.
@@ -32,6 +38,7 @@ from modcorpus import *
 from widegen import WGen
 from c04_util import *
 import c04_ext as XE
+import c04_tagmap as TM
 import c02 as C02
 import c01 as C01
 
@@ -91,8 +98,9 @@ def report_crash(run, m, line, meta, info, layer):
         run.known_finding("C04-generated-alphabet-shift", line)
         run.count("known_C04-generated-alphabet-shift")
         return
-    how = "did not terminate within its CPU budget (hang)" if rc == 99 else "died (rc=%s, %s): sanitizer report, abort or signal" % (rc, what)
-    run.violation("crash:%s:%s" % (layer, (site[0] if site else what)),
+    hang = rc == 99 or (rc == -14 and "C04-HANG" in (err or ""))       # -14: the backstop of the hang guard (see c04_on_alarm)
+    how = "did not terminate within its CPU budget (hang)" if hang else "died (rc=%s, %s): sanitizer report, abort or signal" % (rc, what)
+    run.violation("crash:%s:%s" % (layer, (site[0] if site else ("HANG" if hang else what))),
                   {"what": "decoder process %s on a %s input" % (how, meta["kind"]),
                    "summary": summ[:3], "frames": site, "module": m["text"], "type": meta["tn"], "syntax": meta["syn"], "command_line": line,
                    "stderr_tail": (err or "")[-3000:],
@@ -672,6 +680,254 @@ def ext_layer(run, rng, tier, model):
     return xmods
 
 
+# --------------------------------------------------------------------------------------------------
+# member lookup by tag (lib/c04_tagmap.py): type shapes that select the tag-table branches of the SEQUENCE / SET /
+# CHOICE decoders, under structural faults (a member TLV in the wrong place)
+
+def nontrivial_contents(nodes):
+    """the contents a decode / DER re-encode cycle keeps octet for octet: everything but empty contents, the single octet 00
+    (what the C makes of an empty INTEGER / BIT STRING) and single non-zero octets taken as one class (BOOLEAN TRUE)"""
+    return sorted((b"\xff" if len(c) == 1 else c) for t, c in nodes if c not in (None, b"", b"\x00"))
+
+
+def tagmap_expect(tm, ttype, src, tags, mo):
+    """what coq/Rt/SafetyTagMap.v, run on the emitted tables, says the C must answer on a frame holding TLVs with
+    these tags (src: the member each TLV was built for).  -> ("OK", pres string) | ("NOTOK",) | None (no statement)"""
+    ms = ttype["ms"]
+
+    def compat(a, b):
+        return a == b or TM.member_sig(ms[a]) == TM.member_sig(ms[b])
+    f = mo.split()
+    if tm["kind"] == "CHOICE":
+        if not tags:
+            return None
+        if f[0] == "NONE":
+            return ("NOTOK",) if tm["ext"] == "-" else None
+        n = int(f[0])
+        return ("OK", str(n)) if compat(src[0], n) else None
+    if f[0] in ("FAIL", "SHORT"):
+        return ("NOTOK",)
+    if f[0] != "OK":
+        return ("MODEL?",)
+    tr = [] if f[1] == "none" else [int(x) for x in f[1].split(",")]
+    if len(tr) != len(tags) or not all(compat(a, b) for a, b in zip(src, tr)):
+        return None
+    if tm["kind"] == "SET" and any(o == 0 and i not in tr for i, o in enumerate(tm["opt"])):
+        return ("NOTOK",)
+    return ("OK", ",".join(str(i) for i in sorted(set(tr))) or "none")
+
+
+def tagmap_layer(run, rng, tier, model):
+    q = tier == "quick"
+    mods = TM.gen_modules(rng, tier)
+    build_modules(mods, tag="tmap", moddrv_extra=INC, extra_ldflags=WRAP)
+    tlog("tagmap: %d modules built" % len(mods))
+    live = []
+    for m in mods:
+        if not m.get("exe"):
+            run.violation("build:module", {"what": "a valid generated module (member-lookup shapes) was rejected or its code does not compile", "module": m["text"],
+                                           "asn1c_out": m.get("asn1c_out", "")[-1200:], "build_log": m.get("build_log", "")[-1200:]}, no_input=True)
+        else:
+            live.append(m)
+    # ---- the emitted tables, and the hypotheses of the theorems that have one, checked on each
+    tres = run_many([(m["exe"], ["tm4 %s" % tn for tn, _ in m["defs"]]) for m in live])
+    chk = []
+    for m, (to, te) in zip(live, tres):
+        m["tables"] = {}
+        for (tn, _), o in zip(m["defs"], to):
+            tm = TM.parse_tm4(o)
+            if tm is None:
+                if m["tm"][tn]["cons"] != "of":
+                    run.violation("oracle:tagmap:table", {"what": "no tables read for a SEQUENCE / SET / CHOICE type", "type": tn, "c": o, "module": m["text"]}, no_input=True)
+                continue
+            m["tables"][tn] = tm
+            chk.append((m, tn, "tmapok %d %s" % (tm["count"], tm["map"])))
+    for (m, tn, l), o in zip(chk, model_par(model, [c[2] for c in chk])):
+        run.case(l)
+        run.count("tagmap_tables")
+        if o != "names=1 inside=1":
+            run.violation("oracle:tagmap:table", {"what": "the emitted tag-to-member table names a member that does not exist, or an offset leaves the table (hypotheses of C04_seq_lookup_in_member_table / C04_tagmap_pick_stays_inside)",
+                                                  "type": tn, "tables": m["tables"][tn], "model": o, "module": m["text"]}, no_input=True)
+    # ---- values and their encodings
+    jobs = []
+    for m in live:
+        vals = []
+        for tn, _ in m["defs"]:
+            for v in TM.values_of(m["tm"][tn], m["types"], tier):
+                v["tn"] = tn
+                v["der"] = TM.ser(v["tree"])
+                vals.append(v)
+        xl = ["x4 %s %s" % (v["tn"], hexs(v["der"])) for v in vals]
+        (xo, xe), = run_many([(m["exe"], xl)], max_deaths=12)
+        for k, info in xe.items():
+            if not (info[1] == -1 and "not run" in info[2]):
+                report_crash(run, m, xl[k], {"tn": xl[k].split()[1], "syn": "ber", "kind": "valid", "data": bytes.fromhex(xl[k].split()[2])}, info, "tagmap")
+        encs = []
+        for o in xo:
+            f = o.split()
+            encs.append(f if (len(f) == 3 and f[0] != "DECFAIL") else ["NONE", "NONE", "NONE"])
+        lines, metas, seen = [], [], set()
+
+        def put(v, syn, kind, data, orig, **kw):
+            key = (v["tn"], syn, data)
+            if key in seen or (kind == "trunc" and len(data) >= len(orig)):
+                return
+            seen.add(key)
+            lines.append("d4m %s %s %s" % (v["tn"], syn, hexs(data)))
+            metas.append(dict({"tn": v["tn"], "syn": syn, "kind": kind, "data": data, "orig": orig, "v": v}, **kw))
+
+        for vi, v in enumerate(vals):
+            b = v["base"]
+            ext = bool(b.get("ext"))
+            top = (v["path"] == ())
+            for mode in ("der", "indef", "mixed"):
+                put(v, "ber", "valid" if mode == "der" else "reframe-" + mode, TM.rebuild(v, v["kids"], mode), v["der"], kids=v["kids"], valid=True, top=top, ext=ext)
+            for fi, (fk, nk) in enumerate(TM.struct_faults(v["kids"], b, v["vi"], m["types"], rng, q)):
+                put(v, "ber", "st-" + fk, TM.rebuild(v, nk, "der"), v["der"], kids=nk, top=top, ext=ext)
+                mode = ("indef", "mixed")[(fi + vi) % 2]
+                put(v, "ber", "st-" + fk + "+" + mode, TM.rebuild(v, nk, mode), v["der"], kids=nk, top=top, ext=ext)
+            # the generic battery too (positional damage), lightly
+            for kind, data in mut_truncate(v["der"], rng, 40, 6) + mut_bytes_generic(v["der"], rng, 3, 3, []):
+                put(v, "ber", kind, data, v["der"], ext=ext)
+            # ---- UPER / OER: every bit of the leading octets (presence bits, CHOICE index, counts), cuts, light damage
+            for j, sy in enumerate(("uper", "oer")):
+                o = encs[vi][j]
+                if o in ("NONE", "-"):
+                    run.count("tagmap_no_%s_encoding" % sy)         # SET has no PER/OER codec
+                    continue
+                U = bytes.fromhex(o)
+                put(v, sy, "valid", U, U, valid=True)
+                for i in range(min(len(U), 4 if q else 8)):
+                    for bit in range(8):
+                        put(v, sy, "headflip", U[:i] + bytes([U[i] ^ (1 << bit)]) + U[i + 1:], U)
+                for kind, data in mut_truncate(U, rng, 24, 4) + mut_bytes_generic(U, rng, 3, 3, []):
+                    put(v, sy, kind, data, U)
+            # ---- XER: the same re-arrangements on the elements of the text
+            o = encs[vi][2]
+            if o not in ("NONE", "-"):
+                X = bytes.fromhex(o)
+                put(v, "xer", "valid", X, X, valid=True)
+                xc = TM.xer_children(X) if (top and b["cons"] in ("seq", "set")) else None
+                if xc:
+                    names = {mm["name"]: i for i, mm in enumerate(b["ms"])}
+                    bykid = dict(v["kids"])
+                    if all(nm in names and names[nm] in bykid for nm, _ in xc[1]) and len(xc[1]) == len(v["kids"]):
+                        for fk, idx in TM.index_faults(len(xc[1]), rng, q):
+                            data = xc[0] + b"".join(xc[1][i][1] for i in idx) + xc[2]
+                            put(v, "xer", "st-" + fk, data, X, kids=[(names[xc[1][i][0]], bykid[names[xc[1][i][0]]]) for i in idx], xer_struct=True, top=top, ext=ext)
+                    else:
+                        run.count("tagmap_xer_children_unaligned")
+                for kind, data in mut_truncate(X, rng, 24, 4) + mut_bytes_generic(X, rng, 2, 2, []):
+                    put(v, "xer", kind, data, X)
+            else:
+                run.count("tagmap_no_xer_encoding")
+        jobs.append((m, lines, metas))
+    tlog("tagmap: %d lines generated" % sum(len(j[1]) for j in jobs))
+    cres = run_many([(m["exe"], lines) for m, lines, metas in jobs], timeout=(150 if q else 1500), max_deaths=12)
+    tlog("tagmap: C side done, %d process deaths" % sum(len(e) for o, e in cres))
+    # ---- the model on the tables of the type and the tags of the TLVs of every top-level BER input built here
+    mlines, mwhere = [], []
+    for j, (m, lines, metas) in enumerate(jobs):
+        for i, me in enumerate(metas):
+            if me["syn"] == "ber" and me.get("top") and "kids" in me and me["tn"] in m["tables"]:
+                tm = m["tables"][me["tn"]]
+                tags = [TM.tag_value_of(n) for (_, n) in me["kids"]]
+                ts = ",".join(str(t) for t in tags) or "-"
+                if tm["kind"] == "SEQ":
+                    mlines.append("seqmem %s %s %s %s" % (tm["els"], tm["map"], tm["ext"], ts))
+                elif tm["kind"] == "SET":
+                    mlines.append("setmem %s %d %s" % (tm["map"], 0 if tm["ext"] == "-" else 1, ts))
+                elif tags:
+                    mlines.append("tagfind %s %d" % (tm["map"], tags[0]))
+                else:
+                    continue
+                mwhere.append((j, i, tags))
+    mo = dict(((j, i), (o, tags, l)) for (j, i, tags), o, l in zip(mwhere, model_par(model, mlines), mlines))
+    tlog("tagmap: model done (%d lines)" % len(mlines))
+    for j, ((m, lines, metas), (outs, errs)) in enumerate(zip(jobs, cres)):
+        for i, (l, o, me) in enumerate(zip(lines, outs, metas)):
+            run.case(l)
+            run.count("tmut_%s_%s" % (me["syn"], me["kind"].split("+")[0]))
+            if i in errs and errs[i][0] == "CRASH":
+                if errs[i][1] == -1 and "not run" in errs[i][2]:
+                    run.count("tagmap_not_run_after_too_many_deaths")
+                    continue
+                report_crash(run, m, l, me, errs[i], "tagmap")
+                continue
+            if i in errs:
+                report_crash(run, m, l, dict(me, kind="exit"), errs[i], "tagmap")
+            p3 = TM.parse_d4m(o)
+            if p3 is None:
+                run.violation("oracle:tagmap:result-line", {"what": "malformed driver line", "command_line": l, "c": o, "module": m["text"]})
+                continue
+            r = check_c_line(run, m, l, p3[0].replace(" ATEXIT", ""), me, "tagmap", None)
+            if r is None:
+                continue
+            pres, rt = p3[1], p3[2]
+            rep = {"module": m["text"], "type": me["tn"], "syntax": me["syn"], "mutation": me["kind"], "command_line": l, "c": o, "valid_encoding": hexs(me["orig"])[:400]}
+            derok = r["rc"] == "OK" and not r["der"].startswith("ENCFAIL") and r["der"] != "-"
+            if derok and r["ck"] == 0 and rt != "same":
+                run.violation("oracle:tagmap:second-generation", dict(rep, what="the DER of the RC_OK result does not decode back to a value with the same DER (rt=%s)" % rt))
+            # the generator's own values
+            if me.get("valid"):
+                size = len(me["data"])
+                if not (r["rc"] == "OK" and r["consumed"] == size):
+                    run.violation("oracle:tagmap:valid-not-accepted", dict(rep, what="a valid encoding of a generated value (DER built by lib/c04_tagmap.py, other syntaxes by the C encoders) is not decoded RC_OK / all consumed by its own type"))
+                elif derok and r["der"] != hexs(me["v"]["der"]):
+                    run.violation("oracle:tagmap:der-roundtrip", dict(rep, what="a valid encoding decodes to a value with another DER than the one it was made from", expected_der=hexs(me["v"]["der"])))
+            # nothing is lost: the TLVs of what was accepted = the TLVs of what comes out
+            if derok and r["ck"] == 0 and "kids" in me and not me.get("ext") and (me["syn"] == "ber" or me.get("xer_struct")):
+                outn = TM.ber_nodes(bytes.fromhex(r["der"]))
+                if me["syn"] == "ber":
+                    inn = TM.ber_nodes(me["data"][:r["consumed"]])
+                else:
+                    inn = sorted([(TM.tag_value_of(("p", t, None)), c) for (t, c) in TM.rebuilt_tree_nodes(me["v"], me["kids"])], key=repr) if r["consumed"] == len(me["data"]) else None
+                if inn is None or outn is None:
+                    run.count("tagmap_nothing_lost_not_evaluated")
+                elif sorted(t for t, c in inn) != sorted(t for t, c in outn) and nontrivial_contents(inn) != nontrivial_contents(outn):
+                    # a TLV of the accepted input has no counterpart in the value (or the value holds one the input has not), and
+                    # its contents are not there either.  (Either difference ALONE has a legitimate cause when a member TLV is put
+                    # where a member of another kind bears the same tag: a string member decodes the CONSTRUCTED form, so the TLV
+                    # of an EXPLICIT wrapper or an empty constructed TLV becomes one primitive string with the same contents; an
+                    # empty INTEGER / BIT STRING comes back as 00, a BOOLEAN of any length or value as ff: lenient decoding, C03's
+                    # subject.  Both are counted below.)
+                    run.violation("oracle:tagmap:value-lost", dict(rep, what="RC_OK with %d octets consumed, but the value does not hold what was accepted: %d TLVs in, %d TLVs in the re-encoding (a member decoded twice keeps one value)" % (r["consumed"], len(inn), len(outn)),
+                                                                   tlvs_in=[(t, (c.hex() if c is not None else None)) for t, c in inn][:40], tlvs_out=[(t, (c.hex() if c is not None else None)) for t, c in outn][:40]))
+                elif inn != outn:
+                    run.count("tagmap_nothing_lost_%s" % ("reframed_same_contents" if nontrivial_contents(inn) == nontrivial_contents(outn) else "same_tlvs_contents_renormalised"))
+                else:
+                    run.count("tagmap_nothing_lost_ok")
+            # faithfulness of the lookup model on the emitted tables
+            if (j, i) in mo:
+                mline, tags, ml = mo[(j, i)]
+                tm = m["tables"][me["tn"]]
+                exp = tagmap_expect(tm, me["v"]["base"], [k[0] for k in me["kids"]], tags, mline)
+                run.count("tagmap_tie_%s" % ("none" if exp is None else exp[0]))
+                bad = None
+                if exp is None:
+                    pass
+                elif exp[0] == "MODEL?":
+                    bad = "the model ran out of fuel (excluded by C04_seq_member_loop_terminates)"
+                elif exp[0] == "NOTOK" and r["rc"] == "OK":
+                    bad = "the lookup model finds no member for one of the TLVs (or a mandatory member missing), the C answers RC_OK"
+                elif exp[0] == "OK" and tm["kind"] == "CHOICE" and not (r["rc"] == "OK" and pres == exp[1]):
+                    bad = "the lookup model selects alternative %s, the C answers %s / present=%s" % (exp[1], r["rc"], pres)
+                elif exp[0] == "OK" and tm["kind"] != "CHOICE" and not (r["rc"] == "OK" and r["consumed"] == len(me["data"]) and pres == exp[1]):
+                    bad = "the lookup model decodes members %s, the C answers %s, %d of %d octets, members present %s" % (exp[1], r["rc"], r["consumed"], len(me["data"]), pres)
+                if not bad and exp is not None and exp[0] == "OK" and derok and r["ck"] == 0 and not me.get("ext"):
+                    # every TLV was given to a member of its own kind: then the value holds exactly the TLVs of the input
+                    i2, o2 = TM.ber_nodes(me["data"][:r["consumed"]]), TM.ber_nodes(bytes.fromhex(r["der"]))
+                    if i2 is not None and o2 is not None and i2 != o2:
+                        run.violation("oracle:tagmap:value-changed", dict(rep, what="every TLV sits on a member of its own kind (lookup model), the decode is RC_OK, but the re-encoding does not hold the same TLVs",
+                                                                          tlvs_in=[(t, (c.hex() if c is not None else None)) for t, c in i2][:40], tlvs_out=[(t, (c.hex() if c is not None else None)) for t, c in o2][:40]))
+                if bad:
+                    run.violation("model:tagmap:%s" % tm["kind"].lower(), dict(rep, what="Rt/SafetyTagMap.v run on the emitted tables and the C disagree: " + bad, model_line=ml, model=mline, tables=tm),
+                                  no_input=False)
+        if lines:
+            run.sample({"tagmap_module": m["name"], "lines": len(lines), "first": lines[0][:100], "c": outs[0][:140]})
+    return mods
+
+
 def leaf_layer(run, rng, tier, model):
     """the four skip functions alone (harness/leafdrv_c04.inc against coq/Rt/SafetySkip.v): model = C line by line,
     and the property read off the C's answer: a positive count is within the size, the answer known from the way
@@ -781,6 +1037,7 @@ def main(tier):
         only = os.environ.get("C04_ONLY", "")
         nleaf = leaf_layer(run, Rng(run.seed * 7919 + 1), tier, model) if only in ("", "leaf", "ext") else 0
         xmods = ext_layer(run, Rng(run.seed * 7919 + 2), tier, model) if only in ("", "ext") else []
+        tmods = tagmap_layer(run, Rng(run.seed * 7919 + 3), tier, model) if only in ("", "tagmap") else []
         mods = model_layer(run, rng, tier, model) if (only == "" and not os.environ.get("C04_ONLY_WIDE")) else []
         wmods = wide_layer(run, rng, tier) if only in ("", "wide") else []
     except BuildError as e:
@@ -792,12 +1049,13 @@ def main(tier):
           "extraction: ExtrOcamlBasic only; OCaml 4.13.1; the model runs with a 64 MB stack (EXN Stack overflow = no statement)",
           "lib/modgen.py (generator, independent X.680 tagging), lib/widegen.py, lib/c04_util.py (mutators; BER walker used by the finding predicates)",
           "harness/moddrv.c + harness/moddrv_c04.inc: exact-size poisoned input buffer, allocation ledger by --wrap=malloc/calloc/realloc/free, ITIMER_VIRTUAL hang guard (2 s CPU); d4x: two more decodes with 32 octets behind the input",
+          "lib/c04_tagmap.py (member-lookup shapes; their DER is built by the generator and must be accepted and re-encoded identically by the C), `tm4` (tables read from the emitted descriptors), `d4m` (members present, second-generation DER)",
           "lib/c04_ext.py + lib/extgen.py (families of extensible types, wrappers' DER derived from the model's DER of the plain member, leaf case generator with answers known by construction), harness/leafdrv_c04.inc",
           "gcc 12 -O1 with ASan + UBSan + LSan: memory safety / UB / leaks of the C are OBSERVED on the generated inputs, not proved"]
     return run.finish("proof", (nthm, ndis), trusted_base=tb,
                       checker_cmd="make -C /verif all && coqc -Q coq A1 coq/Props/Properties_C04.v",
-                      extra_cov={"theorems": names, "modules": len(mods), "wide_modules": len(wmods), "ext_modules": len(xmods), "leaf_lines": nleaf,
-                                 "rule": "one case = one `d4` / `d4x` command (type, syntax, input octets) or one leaf command (skiplen / uskip / oskip / xskip / xskiprun); inputs are distinct per (type, syntax); mutants of valid DER/UPER/OER/XER encodings (truncation at every offset, tag/length octet bit flips, length forms, re-framings, splice, text damage), random strings, deep-nesting inputs; extensible-type layer: every encoding of a newer family member read by every member, every prefix, frame cuts, end-of-contents damage",
+                      extra_cov={"theorems": names, "modules": len(mods), "wide_modules": len(wmods), "ext_modules": len(xmods), "tagmap_modules": len(tmods), "leaf_lines": nleaf,
+                                 "rule": "one case = one `d4` / `d4x` / `d4m` command (type, syntax, input octets), one `tmapok` table check, or one leaf command (skiplen / uskip / oskip / xskip / xskiprun); inputs are distinct per (type, syntax); mutants of valid DER/UPER/OER/XER encodings (truncation at every offset, tag/length octet bit flips, length forms, re-framings, splice, text damage), random strings, deep-nesting inputs; extensible-type layer: every encoding of a newer family member read by every member, every prefix, frame cuts, end-of-contents damage; member-lookup layer: structural faults at the member level (dupadj dupalt dupdist swap early late reprun all2 del foreign otheralt) of values of shapes that select each lookup branch, XER element re-arrangements, UPER/OER leading-octet bit flips",
                                  "traces_validated_against_impl": run.cov["evaluations"]},
                       assumptions=["PARTIAL: the theorems are about the Gallina reference decoders (consumed accounting, bounds, fuel, shape); memory safety, UB-freedom and leak-freedom of the compiled C are observed with sanitizers on the mutated inputs only",
                                    "the C accepting what the reference rejects (lenient decoding) is counted, not judged; XER and the wide algebra have no model (survival / consistency only)",
